@@ -33,6 +33,7 @@ ASSUMES = ['every generated float enters the oracle and the model as its exact r
            '(knife-edge cases would be skipped and counted)',
            'argsort tie order is unspecified: kept sets are compared as value multisets when the cut falls inside a tie',
            '1/w and w/max are compared with relative tolerance 1e-15 * 8 on the implementation and 1e-12 against the model',
+           'integer / bool matrices are ordinary inputs: invert / normalize must return the FLOAT result for them (copy=True) and refuse copy=False with BCTParamError, argument untouched (/repo 46a4b71, e4e2655)',
            'NaN / inf entries are not real weights and are not generated; normalize of an all-zero matrix (0/0) must give NaN '
            'everywhere and of a 0x0 matrix must raise ValueError (what the code does; the clause "largest magnitude becomes 1" '
            'has no content there, theorem C17_normalize_domain); logtransform and autofix are not named by the property '
@@ -315,6 +316,9 @@ def tp_case(ctx, bct, lines, pend):
 
 
 # ---------------------------------------------------------------- one utility call against an exact expectation
+BCTPE = None   # bct.utils.BCTParamError, set in run()
+
+
 def check_util(ctx, name, f, args, A0, W, E, tol, case, dtype, speckey, view_rng=None):
     """E: expected exact values (list of lists of Fractions), or 'nan' (every cell NaN), or ('raise', ExcType).
     Returns the copy=True result (or None)."""
@@ -347,18 +351,23 @@ def check_util(ctx, name, f, args, A0, W, E, tol, case, dtype, speckey, view_rng
         ctx.check(R is not A and not np.shares_memory(R, A), name + ':copy', 'copy=True returned (a view of) the argument', case)
         if dtype == 'float':
             ctx.check(R.dtype == A0.dtype, name + ':dtype', 'result dtype %s for float64 input' % R.dtype, case)
+        elif name in ('invert', 'normalize'):
+            ctx.check(R.dtype.kind == 'f', name + ':dtype', 'result dtype %s for %s input cannot hold the quotients' % (R.dtype, dtype), case)
         if ok:
             Ac = A0.copy()
+            refuse = dtype != 'float' and name in ('invert', 'normalize')
             try:
                 R2 = f(Ac, *args, copy=False)
-                ctx.check(R2 is Ac and values_ok(Ac), name + ':inplace', 'copy=False does not leave the result in the argument', case)
-            except Exception as e:
-                if dtype != 'float' and name in ('invert', 'normalize') and isinstance(e, (TypeError, RuntimeError)) and np.array_equal(Ac, A0):
-                    # an integer / bool array cannot in general hold 1/w or w/max: refusing loudly (TypeError of the ufunc, or
-                    # BCTParamError) and leaving the argument alone is accepted; returning a wrong array is not
-                    ctx.count(name + ':inplace_refused_on_int_dtype')
+                if refuse:
+                    # an integer / bool array cannot hold 1/w or w/max: the code must refuse (BCTParamError) and not touch it
+                    ctx.fail(name + ':inplace', 'copy=False on a %s array returned instead of raising BCTParamError' % dtype, case)
                 else:
-                    ctx.fail(name + ':inplace', 'copy=False raised %r' % (e,), case)
+                    ctx.check(R2 is Ac and values_ok(Ac), name + ':inplace', 'copy=False does not leave the result in the argument', case)
+            except Exception as e:
+                if refuse and isinstance(e, BCTPE) and np.array_equal(Ac, A0) and Ac.dtype == A0.dtype:
+                    ctx.count(name + ':inplace_refused_on_%s' % dtype)
+                else:
+                    ctx.fail(name + ':inplace', 'copy=False raised %r%s' % (e, '' if np.array_equal(Ac, A0) else ' and modified the argument'), case)
             if view_rng is not None and n:
                 V, B, M = as_view(view_rng, A0); B0 = B.copy()
                 R3 = f(V, *args, copy=False)
@@ -416,9 +425,7 @@ def util_cases(ctx, bct, lines, pend):
         ctx.case(case, nontrivial=nontriv)
         E = expected(name, W)
         tol = 0 if name == 'binarize' else F(8, 10 ** 15)
-        key = name + ':spec'
-        if dtype != 'float' and name in ('normalize', 'invert') and not isinstance(E, tuple):
-            key = name + ':int_dtype'          # the clause on integer / bool arrays (known findings are filed under this narrow key)
+        key = name + ':spec'       # integer / bool input included: the float result is required (regression of 46a4b71 / e4e2655)
         R = check_util(ctx, name, f, (), A0, W, E, tol, case, dtype, key, view_rng=r if (dtype == 'float' and r.rand() < 0.4) else None)
         if name == 'invert' and R is not None and dtype == 'float':
             with np.errstate(all='ignore'):
@@ -447,10 +454,13 @@ def util_cases(ctx, bct, lines, pend):
                       'weight_conversion(%s, copy=%s) differs from the direct call (result, identity or argument afterwards)' % (wname, cp), wcase)
             if cp is False and ew is None:
                 ctx.check(Rw is Aw, 'weight_conversion:inplace', 'copy=False contract', wcase)
-        if dtype == 'float' or name == 'binarize':
-            lines.append('wc_str %s %s' % (ml, enc_codes(wname))); pend.append(('wc_str', wcase, R, E, None))
-            for c in (1, 0):
-                lines.append('st_wc %s %s %d' % (ml, enc_codes(wname), c)); pend.append(('st_wc', wcase, R, E, (c, A0, wname)))
+            if cp is False and dtype != 'float' and name != 'binarize':
+                ctx.check(isinstance(ew, BCTPE) and np.array_equal(Aw, A0), 'weight_conversion:inplace',
+                          'copy=False on a %s array must raise BCTParamError and leave the argument alone (got %r)' % (dtype, ew), wcase)
+        flt = int(dtype == 'float')
+        lines.append('wc_str %s %s' % (ml, enc_codes(wname))); pend.append(('wc_str', wcase, R, E, None))
+        for c in (1, 0):
+            lines.append('st_wc %s %s %d %d' % (ml, enc_codes(wname), flt, c)); pend.append(('st_wc', wcase, R, E, (c, A0, wname, flt)))
     # ---------------- unknown command strings
     if r.rand() < 0.5:
         bad = str(r.choice(['foo', 'Binarize', 'binarize ', '', 'length', 'normalise', 'lengths2', 'BINARIZE', 'invert']))
@@ -465,7 +475,7 @@ def util_cases(ctx, bct, lines, pend):
             ctx.check(isinstance(e, NotImplementedError) and np.array_equal(Aw, A0), 'weight_conversion:unknown',
                       'unknown command %r must raise NotImplementedError and leave the argument alone (got %r)' % (bad, e), wcase)
         lines.append('wc_str %s %s' % (ml, enc_codes(bad))); pend.append(('wc_str', wcase, None, ('raise', NotImplementedError), None))
-        lines.append('st_wc %s %s 0' % (ml, enc_codes(bad))); pend.append(('st_wc', wcase, None, ('raise', NotImplementedError), (0, A0, bad)))
+        lines.append('st_wc %s %s %d 0' % (ml, enc_codes(bad), int(dtype == 'float'))); pend.append(('st_wc', wcase, None, ('raise', NotImplementedError), (0, A0, bad, int(dtype == 'float'))))
         ctx.count('wc:unknown')
 
 
@@ -551,6 +561,8 @@ def tp_equiv(Mq, R):
 
 def run(ctx):
     import bct
+    global BCTPE
+    BCTPE = bct.utils.BCTParamError
     N = ctx.scale(400, 4000)
     lines, pend = [], []
     observe_rebinders(ctx, bct)
@@ -614,6 +626,14 @@ def run(ctx):
             continue
         if m == 'raise':
             ctx.mismatch('weight_conversion:dispatch', 'model rejects the command %r' % case['wcm'], case, m, None); continue
+        if kind == 'st_wc':
+            c, A0, wname, flt = extra
+            must_refuse = (not flt) and (not c) and wname != 'binarize'
+            if must_refuse or m == 'param':
+                # copy=False on a non-float array: model says BCTParamError (the implementation side is the direct key <fn>:inplace)
+                if not (must_refuse and m == 'param'):
+                    ctx.mismatch('weight_conversion:store', 'store model (%s, flt=%d, copy=%d): refusal expected %s, model says %s' % (wname, flt, c, must_refuse, m), case, m, None)
+                continue
         if E == 'nan' or m == 'nan':
             if not (E == 'nan' and m == 'nan'):
                 ctx.mismatch('normalize:allzero', 'model and oracle disagree on max|W| = 0', case, m, None)
@@ -624,8 +644,8 @@ def run(ctx):
             if not same_vals(dec_m(m), R, tol):
                 ctx.mismatch('weight_conversion:' + case['wcm'], 'model and implementation differ', case, m, R)
             continue
-        c, A0, wname = extra
         arg_after, ret, same = dec_m(m[0]), dec_m(m[1]), m[2]
+        # a non-float argument is promoted: the model returns a fresh object even ... only copy=True reaches here for it
         okk = (same == (not c)) and same_vals(ret, R, tol) and (arg_after == frmat(A0) if c else arg_after == ret)
         if not okk:
             ctx.mismatch('weight_conversion:store', 'store model (%s, copy=%d) disagrees with the observed argument/result/identity' % (wname, c), case, m, R)
